@@ -143,7 +143,7 @@ class SymStr:
             return True
         if m > n:
             return False
-        alts = [mk_str(self.c[i:i + m])._eq_term(mk_str(subc)) for i in range(n - m + 1)]
+        alts = [SymStr(self.c[i:i + m])._eq_term(SymStr(subc)) for i in range(n - m + 1)]
         return core.Or(alts)
 
     # ---- case
@@ -169,7 +169,7 @@ class SymStr:
             return any(self.startswith(x) for x in p)
         if len(p) > len(self.c):
             return False
-        return bool(self[: len(p)]._eq_term(p)) if len(p) else True
+        return bool(SymStr(self.c[: len(p)])._eq_term(p)) if len(p) else True
 
     def endswith(self, p, *a):
         if a:
@@ -178,7 +178,7 @@ class SymStr:
             return any(self.endswith(x) for x in p)
         if len(p) > len(self.c):
             return False
-        return bool(mk_str(self.c[len(self.c) - len(p):])._eq_term(p)) if len(p) else True
+        return bool(SymStr(self.c[len(self.c) - len(p):])._eq_term(p)) if len(p) else True
 
     def _in_set_term(self, x, codes):
         if isinstance(x, builtins.int):
@@ -214,7 +214,7 @@ class SymStr:
 
     # ---- split / replace / find
     def _match_at(self, i, sepc):
-        return mk_str(self.c[i:i + len(sepc)])._eq_term(mk_str(sepc))
+        return SymStr(self.c[i:i + len(sepc)])._eq_term(SymStr(sepc))
 
     def split(self, sep=None, maxsplit=-1):
         if sep is None:
@@ -376,10 +376,10 @@ class SymText:
         return repr(self)
 
     def __len__(self):
-        raise Unsupported("len of symbolic non-ASCII text")
+        raise core.OutOfBound("len of symbolic non-ASCII text")
 
     def __getattr__(self, name):
-        raise Unsupported("str.%s on symbolic non-ASCII text" % name)
+        raise core.OutOfBound("str.%s on valid non-ASCII text (outside the ASCII bound of the string model)" % name)
 
 
 def decode_bytes(b, encoding="utf-8", errors="strict"):
